@@ -17,7 +17,13 @@
                      [r'(?s)this\s*\.expand_array_index\(index\.as_str\(\), is_set_assoc_array\)', r'__o.index()', 1]]},
 }
 @*/
-use super::{env, error, Expansion, ExpansionPiece, WordField};
+use super::{env, Expansion, ExpansionPiece, WordField};
+/// shadows crate::error inside this module (the real type's drop glue is what makes a refactored lookup intractable)
+pub mod error {
+    pub struct Error(pub u8);
+    pub enum ErrorKind { BadSubstitution(String) }
+    impl From<ErrorKind> for Error { fn from(k: ErrorKind) -> Self { std::mem::forget(k); Error(1) } }
+}
 use std::borrow::Cow;
 
 #[derive(Clone, Copy)]
